@@ -109,8 +109,21 @@ Section Readers.
 End Readers.
 
 (* ---------- download ---------- *)
-Lemma firstn_len_eq {A} (l : list A) (n : nat) : zlen (firstn n l) = Z.min (Z.of_nat n) (zlen l).
-Proof. unfold zlen. rewrite firstn_length. lia. Qed.
+Lemma takez_len l : forall n, zlen (takez n l) = Z.min (Z.max 0 n) (zlen l).
+Proof.
+  induction l as [|x l IH]; intros n; cbn [takez].
+  - rewrite zlen_nil. lia.
+  - destruct (n <=? 0) eqn:E.
+    + rewrite zlen_nil, zlen_cons. pose proof (zlen_nonneg l). lia.
+    + rewrite !zlen_cons, IH. pose proof (zlen_nonneg l). lia.
+Qed.
+
+Lemma takez_all l : forall n, zlen l <= n -> takez n l = l.
+Proof.
+  induction l as [|x l IH]; intros n H; cbn [takez]; [reflexivity|].
+  rewrite zlen_cons in H. pose proof (zlen_nonneg l).
+  destruct (n <=? 0) eqn:E; [lia|]. rewrite IH; [reflexivity|lia].
+Qed.
 
 Opaque trim_space norm to_lower codes bytes_eqb forallb.
 
@@ -126,14 +139,14 @@ Section Download.
     intros Hsz. unfold stream_download. destruct (get key) as [|data rerr] eqn:Hg; [discriminate|].
     cbv zeta.
     destruct (rerr && (zlen data <? size + 1)) eqn:H1; [discriminate|].
-    destruct (size <? zlen (firstn (Z.to_nat (size + 1)) data)) eqn:H2; [discriminate|].
-    destruct (zlen (firstn (Z.to_nat (size + 1)) data) <? size) eqn:H3; [discriminate|].
-    destruct (bytes_eqb (sha256hex (firstn (Z.to_nat (size + 1)) data)) sha) eqn:H4; cbn [negb]; [|discriminate].
+    destruct (size <? zlen (takez (size + 1) data)) eqn:H2; [discriminate|].
+    destruct (zlen (takez (size + 1) data) <? size) eqn:H3; [discriminate|].
+    destruct (bytes_eqb (sha256hex (takez (size + 1) data)) sha) eqn:H4; cbn [negb]; [|discriminate].
     intros [= <- <-]. apply bytes_eqb_eq in H4.
-    pose proof (firstn_len_eq data (Z.to_nat (size + 1))) as Hl.
+    pose proof (takez_len data (size + 1)) as Hl.
     assert (zlen data = size) as Hd by lia.
-    assert (firstn (Z.to_nat (size + 1)) data = data) as Hall.
-    { apply firstn_all2. unfold zlen in Hd. lia. }
+    assert (takez (size + 1) data = data) as Hall.
+    { apply takez_all. lia. }
     rewrite Hall in *.
     assert (rerr = false) as ->.
     { destruct rerr; [|reflexivity]. cbn [andb] in H1. lia. }
